@@ -356,3 +356,14 @@ def is_known(failure: dict, known: list[dict]) -> dict | None:
         if k.get("signature") == failure.get("signature"):
             return k
     return None
+
+
+def lean_item(name: str, typ: str, value: str | None) -> str:
+    """A generated constant `Gen.<name>` plus the flag `Gen.<name>_found`.  When the extractor did not find the item the
+    constant gets a sentinel (0 / false / []) so that every model and the driver still BUILD - only the tie theorems that
+    mention the item (and assert `<name>_found = true` where the sentinel could be mistaken for the expected value) fail,
+    i.e. only the properties that rest on it are disturbed."""
+    sentinel = {"Nat": "0", "Bool": "false"}.get(typ, "[]")
+    if value is None:
+        return f"def {name} : {typ} := {sentinel}   -- NOT FOUND in the current source\ndef {name}_found : Bool := false"
+    return f"def {name} : {typ} := {value}\ndef {name}_found : Bool := true"
